@@ -665,7 +665,8 @@ def run(tier, seed):
     from . import C15
     dn, dpayload = (0, None)
     if not (bad_rows or not table_ok or bad or xbad):
-        dn, dpayload = DP.run_part("C20", "deleg20", [C15.gen_case(rng) for _ in range(40 if tier == "quick" else 300)], seed,
+        dn, dpayload = DP.run_part("C20", "deleg20", [C15.gen_case(rng) for _ in range(40 if tier == "quick" else 300)]
+                                   + [DP.report_case(rng) for _ in range(60 if tier == "quick" else 500)], seed,
                                    "correspondence C20 (receiver part): unmocked provided methods through every receiver kind vs the model")
     n_obl = len(obligations) + 4
     cov = {
@@ -674,7 +675,7 @@ def run(tier, seed):
         "associated_const_part": {"evaluations": len(xlines), "rule": "harness/mirrors/src/extras.rs: upstream::Chunked mirrored with `const CHUNK: usize = 2; const LIMIT: usize = 5;` "
                                   "(CHUNK has an upstream default 4, PAD keeps its default, LIMIT has none); random scripts of accepted counts driven through put_all(&mut self), "
                                   "describe(&self), finish(self) and direct calls; compared with a plain implementor declaring the same constants (results, call log with arguments, leftovers)"},
-        "receiver_part": {"evaluations": dn, "rule": "C15 generator (trait D: every receiver kind, original and clones)"},
+        "receiver_part": {"evaluations": dn, "rule": "C15 generator (trait D: every receiver kind, original and clones); mocked Termination::report: " + DP.report_case.__doc__},
         "checker_cmd": f"make -C /verif/coq ; coqc MirrorsCheck.v (regenerated) ; ./check C20 --tier {tier}",
         "trusted_base": C.TRUSTED_BASE + [
             "rustc type-checks the generated wiring program against the UPSTREAM trait signatures (harness/mirrors/src/gen.rs)",
